@@ -154,6 +154,35 @@ def sdp_attribute_id_ranges(lo: int, hi: int, single: int, op: str, form: int) -
         return [a.id for a in attrs] == want
 
 
+@harness(pre=['0 <= n <= 48 and 0 <= kind <= 2 and 0 <= depth <= 3'], family='sdp-attributes', twin=True, timeout=(120, 300), grid={'op': ['attr', 'search_attr']},
+         kernels=('bumble.sdp.DataElementParser.parse_next', 'bumble.sdp.DataElementParser._list_from_bytes', 'bumble.sdp.DataElement.__bytes__', 'bumble.sdp.Client.get_attributes', 'bumble.sdp.Client.search_attributes'),
+         bounds='an attribute whose value holds n = 0..48 sibling containers (empty sequences, empty alternatives, or sequences of one integer), wrapped 0..3 levels deep, fetched with an attribute / search-attribute transaction at MTU 672: the client returns a value equal to the stored one (siblings do not count towards the nesting limit)')
+def sdp_many_sibling_containers(n: int, kind: int, depth: int, op: str) -> bool:
+    n, kind, depth = C(n, 0, 48), C(kind, 0, 2), C(depth, 0, 3)
+    with untraced():
+        with detloop.running() as loop:
+            one = (lambda: DE.sequence([])) if kind == 0 else (lambda: DE.alternative([])) if kind == 1 else (lambda: DE.sequence([DE.unsigned_integer_8(7)]))
+            value = DE.sequence([one() for _ in range(n)])
+            for _ in range(depth):
+                value = DE.sequence([value])
+            server = sdp.Server(None)
+            server.service_records = {0x10001: _record(0x10001, [UA], 0, 0x41)}
+            server.service_records[0x10001][2] = sdp.ServiceAttribute(0x0100, value)
+            client, cs, sc = _wire(loop, server, 672)
+            if op == 'attr':
+                t = loop.create_task(client.get_attributes(0x10001, [(0, 0xFFFF)]))
+            else:
+                t = loop.create_task(client.search_attributes([UA], [(0, 0xFFFF)]))
+            loop.run_ready()
+            if not t.done() or t.exception() is not None:
+                return False
+            attrs = t.result() if op == 'attr' else (t.result()[0] if len(t.result()) == 1 else None)
+            if attrs is None:
+                return False
+            got = {a.id: a.value for a in attrs}
+            return sorted(got) == [0, 1, 0x100] and bytes(got[0x100]) == bytes(value) and got[0x100] == value
+
+
 @harness(pre=['(0 <= l1 <= 1 or LO <= l1 <= HI) and 0 <= x <= 255'], family='sdp-continuation', twin=True, timeout=(90, 300),
          kernels=('bumble.sdp.Server.on_sdp_service_attribute_request', 'bumble.sdp.Server.on_sdp_service_search_attribute_request', 'bumble.sdp.Server.check_continuation',
                   'bumble.sdp.Server.get_next_response_payload', 'bumble.sdp.Client.get_attributes', 'bumble.sdp.Client.search_attributes'),
